@@ -369,8 +369,11 @@ func (e *Engine) strLitDecls() string {
 	var names []string
 	for _, s := range e.strOrder {
 		n := e.strLits[s]
-		names = append(names, n)
 		fmt.Fprintf(&sb, "(declare-const %s Str) ; %s\n", n, strconv.Quote(s))
+		if strings.Contains(s, "\x01") {
+			continue // text with symbolic holes: nothing is known about its length or distinctness
+		}
+		names = append(names, n)
 		fmt.Fprintf(&sb, "(assert (= (s.len %s) %d))\n", n, len(s))
 		if len(s) > 0 {
 			fmt.Fprintf(&sb, "(assert (= (s.at %s 0) %d))\n", n, s[0])
